@@ -39,18 +39,26 @@ func cliEvery(tier string) int {
 
 const grammarAttempts = 12
 
+// report files each command of the CLI slice writes under coca_reporter/
+var cliReports = map[string][]string{
+	"analysis": {"identify.json", "deps.json"},
+	"bs":       {"nodeInfos.json", "bs.json"},
+	"api":      {"apis.json"},
+	"todo":     {"simple-todos.json"},
+}
+
 var Check = &run.Check{
 	ID:    "C09",
 	Level: "exploration",
 	Rule: "case = one 'unusual' Java file from G-JAVA-WIDE + 1-3 ordinary javagen files. Sources by case index mod 10: 0-5 (i) hand-written recursive generator over the Java-17 constructs of the shipped grammar " +
 		"(enums with bodies, records, annotation types, sealed/permits, nested/inner/local/anonymous classes, generic methods/constructors, this()/super() calls, explicit generic invocation, inner creators, arrays, every statement form incl. " +
 		"labelled/assert/synchronized/try-with-resources/old+arrow switch, switch expressions, pattern instanceof, all lambda parameter shapes, all method-reference forms, casts, ternaries, all literal kinds incl. text blocks, annotations in " +
-		"every position/argument form incl. one-character constants and type annotations on qualified types, initialisers, non-ASCII identifiers/literals, Spring-style mappings, TODO/FIXME comments; a quarter of them re-laid-out by the token rewriter); " +
+		"every position/argument form incl. one-character constants and type annotations on qualified types, initialisers, non-ASCII identifiers/literals, raw control / non-character / unassigned supplementary characters inside string and char literals (also as call arguments) and comments, classes that extend a same-named class of another package and call inherited methods through super, Spring-style mappings, TODO/FIXME comments; a quarter of them re-laid-out by the token rewriter); " +
 		"6-7 (ii) random sentences of compilationUnit derived from the rule text of JavaParser.g4/JavaLexer.g4 read at run time (depth budget over a shortest-derivation table, at most " + "12" + " sentences tried per case until one is accepted); " +
 		"8-9 (iii) the .java files under _fixtures in rotation under token-level rewrites (re-layout between tokens, comment insertion, consistent renaming of one identifier). Only files accepted by coca's own parser " +
 		"(common.JavaSyntaxErrors == 0; for (ii) additionally: the parser consumed the whole input) are run. Observed per accepted file under recover(): identifier pass, full pass, bad-smell pass (AnalysisPath + IdentifyBadSmell), API scan, " +
 		"refactoring scan (Analysis only), todo scan: each must return and json.Marshal(result) must succeed; project level: unusual + ordinary files in one directory through JavaIdentifierApp/JavaFullApp.AnalysisPath must return and contain every " +
-		"ordinary type; every Nth case through `coca analysis|bs|api -f|todo -p DIR` (exit 0, no panic trace). Expression depth <= 6, file <= 400 lines. " +
+		"ordinary type; every Nth case through `coca analysis|bs|api -f|todo -p DIR` (exit 0, no panic trace, every report file of the command present, non-empty and valid JSON). Expression depth <= 6, file <= 400 lines. " +
 		"non-trivial = the file uses >= 3 construct families outside the conventional subset of C01/C02 (recorded by the generator for (i), detected on tokens for (ii)/(iii)); distinct = hash of the multiset of those families (counts capped at 3)",
 	Assumptions: []string{
 		"a text counts only if coca's own Java parser accepts it; rejected texts are inconclusive. The < 2 % bound on rejects applies to sources (i) and (iii); sentences of source (ii) that the parser rejects (keyword-like identifiers, precedence climbing, comment/text-block terminators produced by chance) are counted separately (counters src_grammar_*) and a case of (ii) is inconclusive only if none of its 12 sentences is accepted",
@@ -71,10 +79,14 @@ var Check = &run.Check{
 	Run:        runCase,
 	MaxSamples: 4,
 	// termination clause: a case that exceeds 90 s in the worker is re-run alone for up to 180 s; if it is then still
-	// running after >= 75 s of CPU time (cases need well under a second, see cases_taking_*), it is reported as
-	// no-termination with the stacks of the goroutines inside coca; otherwise the watchdog firing is inconclusive
+	// running after >= 25 s of CPU time, it is reported as no-termination with the stacks of the goroutines inside
+	// coca; otherwise the watchdog firing is inconclusive. The threshold is CPU time of the child, so machine load does
+	// not count towards it: the heaviest legitimate case (ten parses of a 400-line file, cold prediction caches) needs
+	// about 2-5 s of CPU, typical ones well under a second (see cases_taking_*). 25 s rather than 75 s because on a
+	// machine that is oversubscribed 5-10x (other checks running) a spinning child is given less than 75 s of CPU
+	// within its 180 s of wall clock, and the hang would be filed as inconclusive (seen with seeds C09-8 / C09-14).
 	CaseWatchdog: 90 * time.Second,
-	HangCPU:      75 * time.Second,
+	HangCPU:      25 * time.Second,
 }
 
 var gcOnce sync.Once
@@ -359,7 +371,9 @@ func runCase(c *run.Ctx, o *run.Outcome) {
 					o.Count("cli_api_skipped_no_deps", 1)
 					continue
 				}
-				res := common.RunCLI(c.CocaBin, cwd, nil, cmd...)
+				// coca starts a CPU profile into a fresh $TMPDIR/profile*/ on every invocation and leaves it behind:
+				// keep it inside the scratch directory of the case
+				res := common.RunCLI(c.CocaBin, cwd, []string{"TMPDIR=" + cwd}, cmd...)
 				o.Count("cli_commands", 1)
 				if res.TimedOut {
 					o.Count("cli_watchdog", 1)
@@ -373,6 +387,16 @@ func runCase(c *run.Ctx, o *run.Outcome) {
 					o.Count("cli_commands_ok", 1)
 					if cmd[0] == "analysis" {
 						analysisOK = true
+					}
+					// the report files of the command: present, non-empty, valid JSON (the commands ignore Marshal errors
+					// and would write an empty file)
+					for _, rf := range cliReports[cmd[0]] {
+						o.Count("cli_report_files_checked", 1)
+						if bad := oracle.NoCrashReportFile(filepath.Join(cwd, "coca_reporter", rf)); bad != "" {
+							o.Violate("cli-report-"+bad+"/"+cmd[0]+"/"+rf, "`coca %s` exit 0 but coca_reporter/%s is %s: the result was not serialised", strings.Join(cmd[:len(cmd)-1], " "), rf, bad)
+						} else {
+							o.Count("cli_report_files_valid_json", 1)
+						}
 					}
 				}
 			}
